@@ -101,8 +101,8 @@ def run(F, chk):
     M3.floor('read impl', len(rd), 1)
     M4 = chk.rule('M4', 'fill_buf: the buffer-full exit is only reached with pos < CACHE_LINE_SIZE (compacted, or not needing compaction), so a full buffer holds more than the low mark')
     for b in fb:
-        check_fill(b, M2)
-        check_full_exit(b, M4, cl)
+        check_fill(b, M2, F)
+        check_full_exit(b, M4, cl, F)
     M6 = chk.rule('M6', 'compaction keeps buf[i] <-> abs_pos + i for the copied window; if it leaves a stale prefix buf[0..offset), every Seek store to pos is bounded below by a field recording that offset')
     check_seek_window(F, M6)
     # M5: the consumer side.  The look-ahead guarantee is only worth something if the iterator's progress between two parse
@@ -180,9 +180,10 @@ def fold(e):
     return None
 
 
-def check_fill(b, M2):
+def check_fill(b, M2, F=None):
     cfg = CFG(b)
     E = ExprBuilder(cfg, fold_named=True)
+    getters = getter_texts(reader_helpers(F, b)) if F is not None else {}
     M2.fn(b.path)
     # (a) EOF latch
     latch = [(blk, s) for blk in b.blocks if not blk.cleanup for s in blk.stmts if s.k == 'assign' and show(E.target(s.place)) == '(*self).empty_last_read']
@@ -201,6 +202,8 @@ def check_fill(b, M2):
             cs_ = show(c)
             if truth is True and cs_.startswith('Eq(') and 'Read::read(' in cs_ and cs_.endswith(', 0)'):
                 ok = True
+            if truth == ('eq', 0) and 'Read::read(' in cs_ and not cs_.startswith(('discr(', 'Eq(', 'Ne(', 'Lt(', 'Gt(', 'Le(', 'Ge(', 'Not(')):
+                ok = True      # `match read { 0 => .. }`: integer switch on the value read
         if ok:
             M2.ok(sample={'store': 'empty_last_read = true', 'only_under': 'inner.read(..) == 0'})
         else:
@@ -226,7 +229,13 @@ def check_fill(b, M2):
                     nc, nt = guards.normalise(E.switch_cond(blk), edge_true)     # comparison that holds on the exit edge
                     if nt is True:
                         c = show(nc)
-                if edge_true is not None and nt is True and re.match(r'Ge\(Sub\(\(\*self\)\.cap, \(\*self\)\.pos\), \(\*self\)\.low_mark\)', c):
+                c = sub_getters(c, getters)       # `self.buffered_len()` reads as cap - pos
+                # `match read { 0 => .. }`: integer switch on the read result
+                if not c.startswith(('Eq(', 'Ge(', 'Lt(', 'discr(', 'Ne(', 'Gt(', 'Le(')) and 'Read::read(' in c and 0 in [v for v, t in blk.term.d['vals'] if t == s]:
+                    kind = 'read == 0'
+                if kind:
+                    pass
+                elif edge_true is not None and nt is True and re.match(r'Ge\(Sub\(\(\*self\)\.cap, \(\*self\)\.pos\), \(\*self\)\.low_mark\)', c):
                     kind = 'buffered >= low_mark'
                 elif edge_true is not None and nt is True and c.startswith('Eq(') and 'Read::read(' in c and c.endswith(', 0)'):
                     kind = 'read == 0'
@@ -242,9 +251,11 @@ def check_fill(b, M2):
             if kind is None and blk.term.k == 'goto':
                 # a goto exit is fine when its block is dominated by an accepted exit condition
                 for (c, truth, D) in guards.known(cfg, E, blk.i):
-                    cs_ = show(c)
+                    cs_ = sub_getters(show(c), getters)
                     if cs_.startswith('Eq(') and 'Read::read(' in cs_ and truth is True:
                         kind = 'read == 0 / buffer full'
+                    if truth == ('eq', 0) and 'Read::read(' in cs_ and not cs_.startswith(('discr(', 'Eq(', 'Ne(', 'Lt(', 'Gt(', 'Le(', 'Ge(', 'Not(')):
+                        kind = 'read == 0'
                     if cs_.startswith('Ge(Sub((*self).cap, (*self).pos), (*self).low_mark)') and truth is True:
                         kind = 'buffered >= low_mark'
             if kind:
@@ -269,7 +280,84 @@ def check_fill(b, M2):
     M2.floor('Ok return definitions in fill_buf', okdefs, 1)
 
 
-def check_full_exit(b, M4, cl):
+def reader_helpers(F, b):
+    """inherent LowMarkBufReader methods (not trait impls) called from body b: {path: body}"""
+    out = {}
+    for blk in b.calls():
+        t = F.get(blk.term.callee.path)
+        if t is not None and t.path.startswith(RD + '::<') and t.kind != 'closure':
+            out[t.path] = t
+    return out
+
+
+def getter_texts(helpers):
+    """{text of a call `Helper(&(*self))`: text of the expression it returns} for helpers that only compute a value from
+    fields of self (no calls, one return value)"""
+    out = {}
+    for p, hb in helpers.items():
+        if any(True for _ in hb.calls()):
+            continue
+        hc = CFG(hb)
+        hE = ExprBuilder(hc, fold_named=True)
+        ds = hc.defs.get(0, [])
+        if len(ds) != 1 or ds[0][1] == 'call':
+            continue
+        txt = show(hE.rvalue(ds[0][2].rv))
+        short = 'LowMarkBufReader::' + p.split('::')[-1]
+        out[short + '(&(*self))'] = txt
+        out[short + '(&mut (*self))'] = txt
+    return out
+
+
+def sub_getters(txt, getters):
+    for k, v in getters.items():
+        txt = txt.replace(k, v)
+    return txt
+
+
+def helper_ensures_small_pos(hb, cl):
+    """does every normal return of helper hb happen with pos < CACHE_LINE_SIZE known (compaction stored pos = offset, or the
+    `pos >= CL` test was false / `pos < CL` true)"""
+    from paths import Explorer
+    cfg = CFG(hb)
+    E = ExprBuilder(cfg, fold_named=True)
+    stores = set()
+    for blk in hb.blocks:
+        if blk.cleanup:
+            continue
+        for s_ in blk.stmts:
+            if s_.k == 'assign' and show(E.target(s_.place)) == '(*self).pos':
+                stores.add(blk.i)
+    if not any(x.term.callee.path.endswith('::copy_within') for x in hb.calls()):
+        return False
+
+    def block_effect(blk, facts):
+        if blk.i in stores:
+            return frozenset(facts | {('small_pos',)})
+        return facts
+
+    def edge_effect(blk, tgt, facts):
+        if blk.term.k == 'switch':
+            c, t = guards.normalise(E.switch_cond(blk), True)
+            sc = show(c)
+            for v, tt in blk.term.d['vals']:
+                if tt == tgt and v == 0:     # condition false on this edge
+                    if re.match(r'Ge\(\(\*self\)\.pos, %d\)$' % cl, sc):
+                        return frozenset(facts | {('small_pos',)})
+            if blk.term.d['otherwise'] == tgt and [v for v, _ in blk.term.d['vals']] == [0]:   # condition true
+                if re.match(r'Lt\(\(\*self\)\.pos, %d\)$' % cl, sc):
+                    return frozenset(facts | {('small_pos',)})
+        return facts
+    ex = Explorer(cfg, block_effect=block_effect, edge_effect=edge_effect, var_roots=set())
+    ex.run()
+    for e in cfg.exits:
+        for st in ex.out_states.get(e, ()):
+            if ('small_pos',) not in st[1]:
+                return False
+    return True
+
+
+def check_full_exit(b, M4, cl, F=None):
     """`read == free space` only proves "at least low_mark buffered" when pos is small: buffered = len - pos > len - CACHE_LINE >= low_mark
     (constructor assert).  So every path from the loop head to that exit must pass the compaction (pos = offset) or the
     false edge of `pos >= CACHE_LINE_SIZE`."""
@@ -289,6 +377,13 @@ def check_full_exit(b, M4, cl):
         for s in blk.stmts:
             if s.k == 'assign' and show(E.target(s.place)) == '(*self).pos':
                 compaction.add(blk.i)
+    # a compaction moved into a private method: the call establishes pos < CACHE_LINE_SIZE if the method does on all returns
+    helpers = reader_helpers(F, b) if F is not None else {}
+    for blk in b.calls():
+        hb = helpers.get(blk.term.callee.path)
+        if hb is not None and helper_ensures_small_pos(hb, cl):
+            compaction.add(blk.i)
+            M4.fn(hb.path)
     full_exits = []
     for blk in b.blocks:
         if blk.cleanup or blk.term.k != 'switch':
@@ -342,6 +437,13 @@ def check_seek_window(F, M6):
     if not fb or not sk:
         return
     b = fb[0]
+    if not any(x.term.callee.path.endswith('::copy_within') for x in b.calls()):
+        # the compaction may live in a private method called by fill_buf
+        for hp, hb in reader_helpers(F, b).items():
+            if any(x.term.callee.path.endswith('::copy_within') for x in hb.calls()):
+                M6.fn(b.path)
+                b = hb
+                break
     cfg = CFG(b)
     E = ExprBuilder(cfg, fold_named=True)
     M6.fn(b.path)
